@@ -292,8 +292,9 @@ def _rand_model_once(rng, P):  # noqa: C901, PLR0912, PLR0915
         # utility (and can be requested as a target): lcm.simulate applies the transition functions to whole batches
         # without vmap, so a reduction inside a transition's dependencies is not supported by the library.
         src = "a" if has_a else "b"
-        targs = [src, "kt"] + (["_period"] if T > 1 else [])
-        funcs.append(mkfunc("tot", "aux", _shuf(rng, targs, P), ["ssum", mul(var(src), var("kt")), var("_period") if T > 1 else const(1)]))
+        use_t = T > 1 and not P["no_period"]
+        targs = [src, "kt"] + (["_period"] if use_t else [])
+        funcs.append(mkfunc("tot", "aux", _shuf(rng, targs, P), ["ssum", mul(var(src), var("kt")), var("_period") if use_t else const(1)]))
         params["tot"] = {"kt": q(rng.choice([1, 2, 3]))}
         terms.append(var("tot"))
         uargs.append("tot")
